@@ -8,7 +8,7 @@ import itertools
 from ..interp import Interp, Obj, Sym, Term, Lin, View, Cell, Arr, vkey, is_opaque, Infeasible
 from ..chibi import CG
 from ..build import AnalysisBroken
-from ..lib_c15 import A, Agg, lines_of, op_is, op_int, op_val, same, bounds_of
+from ..lib_c15 import A, Agg, lines_of, op_is, op_int, op_val, same, bounds_of, sym_values
 
 CGU = 'codegen.c'
 PU = 'parse.c'
@@ -582,12 +582,30 @@ def r152(cg, rep):
 # =============================================================================================
 # R15.4 address forms
 # =============================================================================================
-def _addr_form(lines, NAME, OFF):
+def _rsp_adjust(l):
+    """bytes by which the instruction moves %rsp (negative: reserves stack), or None: `sub/add $n, %rsp`, `push r`, `pop r`"""
+    import re
+    if l.kind != 'ins':
+        return None
+    if l.head in ('sub', 'subq', 'add', 'addq') and len(l.ops) == 2 and l.ops[1] == ('%rsp', []) and not l.ops[0][1] and re.match(r'^\$\d+$', l.ops[0][0]):
+        n = int(l.ops[0][0][1:])
+        return -n if l.head.startswith('sub') else n
+    if l.head in ('push', 'pushq', 'pop', 'popq') and len(l.ops) == 1 and not l.ops[0][1] and re.match(r'^%r[a-z0-9]+$', l.ops[0][0]):
+        return -8 if l.head.startswith('push') else 8
+    return None
+
+
+def _addr_form(lines, NAME, OFF, stack=None):
     """symbolic evaluation of the emitted sequence: which address ends up in %rax?
-    returns (form, None) | ('garbage', description) | (None, unknown instruction)"""
+    returns (form, None) | ('garbage', description) | (None, unknown instruction).
+    stack (a dict, filled when given): 'adjusts' the sequence moves %rsp, 'at_call' [bytes reserved by the sequence at each call it makes],
+    'net' bytes still reserved at its end (negative: it released more than it reserved), 'over' it released stack it had not reserved"""
     import re
     L = [l for l in lines if l.kind != 'blank']
     regs = {}
+    st = stack if stack is not None else {}
+    st.update(adjusts=False, at_call=[], net=0, over=False, complete=False)
+    reserved = 0
 
     def sym(a, key, what):
         if vkey(a) != key:
@@ -628,6 +646,17 @@ def _addr_form(lines, NAME, OFF):
             h = l.head
             if h == 'rex64' and not l.ops:
                 continue
+            adj = _rsp_adjust(l)
+            if adj is not None:
+                # padding around a call: the stack pointer moves, no value of the address computation does (a popped register holds what was on the stack)
+                st['adjusts'] = True
+                reserved -= adj
+                st['net'] = reserved
+                if reserved < 0:
+                    st['over'] = True
+                if h.startswith('pop'):
+                    regs[l.ops[0][0]] = ('undefined', l.ops[0][0])
+                continue
             if h.startswith('data16 '):
                 h = h[7:]
             if h in ('mov', 'movq', 'lea', 'leaq', 'add', 'addq') and len(l.ops) == 2:
@@ -644,8 +673,10 @@ def _addr_form(lines, NAME, OFF):
                 continue
             if h == 'call' and len(l.ops) == 1 and not l.ops[0][1] and l.ops[0][0].lower() == '__tls_get_addr@plt':
                 regs['%rax'] = ('tls-addr', regs.get('%rdi', ('undefined', '%rdi')))
+                st['at_call'].append(reserved)
                 continue
             return None, l.text.strip()
+        st['complete'] = True
     except _Garbage as g:
         return 'garbage', str(g)
     r = regs.get('%rax')
@@ -659,6 +690,11 @@ def _addr_form(lines, NAME, OFF):
     if r == ('sum', frozenset([('tp',), ('tpoff-via-got',)])):
         return 'tls-ie', None
     if r == ('tls-addr', ('tlsgd-arg',)):
+        # stack padding may surround the pattern (it is outside the 16 bytes the linker rewrites), never split it
+        while L and _rsp_adjust(L[0]) is not None:
+            L = L[1:]
+        while L and _rsp_adjust(L[-1]) is not None:
+            L = L[:-1]
         heads = [(l.head, [o[0] for o in l.ops]) for l in L]
         canon = len(L) == 4 and heads[0][0] in ('data16 lea', 'data16 leaq') and heads[0][1][1:] == ['%rdi'] and heads[1][0] in ('.value', '.word', '.short') and \
             heads[1][1] == ['0x6666'] and heads[2] == ('rex64', []) and heads[3][0] == 'call'
@@ -719,10 +755,40 @@ def _want_addr(vla, local, fpic, tls, func, defn, static):
     return 'rip', (), 'object/' + d
 
 
+DEPTH_DOMAIN = range(0, 64)
+
+
+def _stack_of_addr(ag, ctx, key, cell, stk, lines, sl, facts):
+    """the stack pointer around an address computation that calls (__tls_get_addr) or moves %rsp: what the sequence reserves it releases, and
+    at the call %rsp is a multiple of 16 for every number of temporaries (`depth`, 8 bytes each, on a frame that is aligned at depth 0) the path is taken for"""
+    em = '; '.join(l.text.strip() for l in lines)
+    ag.note(key + '/stack-released', stk['net'] == 0 and not stk['over'],
+            'for a %s: the sequence %s (emitted: %s) -- every temporary pushed by the enclosing expression and every local is addressed at the wrong place afterwards'
+            % (_cell_doc(cell), 'releases stack it has not reserved' if stk['over'] else 'leaves %%rsp %d bytes below where it was' % stk['net'], em), sl, facts)
+    if not stk['at_call']:
+        return
+    ds = sym_values(ctx, 'depth0', DEPTH_DOMAIN)
+    if ds is None:
+        ag.undecided(key + '/call-aligned', 'the path %s depends on `depth` in a way this rule cannot evaluate' % (ctx.trail[-3:],), sl)
+        return
+    if not ds:
+        ag.undecided(key + '/call-aligned', 'the path %s is taken for no depth in 0..%d' % (ctx.trail[-3:], DEPTH_DOMAIN[-1]), sl)
+        return
+    bad = [(d, r) for d in ds for r in stk['at_call'] if (8 * d + r) % 16 != 0]
+    msg = ''
+    if bad:
+        d, r = bad[0]
+        msg = ('for a %s: at `call __tls_get_addr@PLT` %%rsp is %d modulo 16 when %d temporar%s of the enclosing expression %s on the stack (depth=%d; the sequence reserves %d '
+               'bytes before the call on this path; emitted: %s) -- the psABI requires a 16-byte aligned stack at every call'
+               % (_cell_doc(cell), (-(8 * d + r)) % 16, d, 'y' if d == 1 else 'ies', 'is' if d == 1 else 'are', d, r, em))
+    ag.note(key + '/call-aligned', not bad, msg, sl, dict(facts, depths=('%d..%d' % (ds[0], ds[-1]) if len(ds) == len(DEPTH_DOMAIN) else ds[:8]), reserved_at_call=stk['at_call']))
+
+
 def r154(cg, rep):
     rep.rule('R15.4', 'gen_addr(ND_VAR) address forms: VLA -> pointer loaded from the frame; local -> lea off(%rbp); -fPIC and thread-local -> general-dynamic '
              'sequence (for every thread-local variable, defined here or not); -fPIC -> GOT; thread-local defined in this unit -> local-exec, only declared here (it may live in a '
-             'shared object) -> initial-exec; function without a definition in this unit -> GOT; otherwise RIP-relative', floor=14)
+             'shared object) -> initial-exec; function without a definition in this unit -> GOT; otherwise RIP-relative; a sequence that calls __tls_get_addr does so with %rsp a multiple '
+             'of 16 for every number of temporaries on the stack, and releases the padding it reserves', floor=14)
     _need(cg.cu, CGU, 'gen_addr')
     fline = cg.cu.fn('gen_addr').line
     ag = Agg(rep, 'R15.4', CGU, 'gen_addr')
@@ -775,9 +841,12 @@ def r154(cg, rep):
                 got_any = True
                 n += 1
                 lines = lines_of(it, ctx)
-                form, detail = _addr_form(lines, NAME, OFF)
+                stk = {}
+                form, detail = _addr_form(lines, NAME, OFF, stk)
                 facts = {'variable': dict(fl, type=tyname), 'path': ctx.trail[-6:], 'emitted': [l.text for l in lines]}
                 sl = lines[0].src_line if lines else fline
+                if stk['complete'] and (stk['adjusts'] or stk['at_call']):
+                    _stack_of_addr(ag, ctx, key, cell, stk, lines, sl, facts)
                 if form is None:
                     if not lines:
                         ag.note(key, False, 'no address is formed for a variable reference of class %s' % cell, sl, facts)
@@ -2998,6 +3067,7 @@ def run(P, rep, tier):
                         'one declarator per declaration in global_variable()/declaration(); a definition has `{` where a prototype has `;`',
                         'gas semantics: a symbol is local unless .globl; .comm is global unless preceded by .local; .L names stay out of the symbol table',
                         'psABI 3.1.2 array alignment, ELF TLS ABI (general-dynamic 16-byte pattern, local-exec), crt start-file order of the GNU toolchain',
+                        'R15.4 stack at the __tls_get_addr call: %rsp is a multiple of 16 when `depth` is 0 (prologue: C06) and every unit of `depth` is one 8-byte slot (C20); `depth` evaluated for 0..63',
                         'lists are analysed with the object under test followed by one plain definition (continuation), graphs with three functions (bounded-exhaustive)',
                         'R15.9: ld resolves archives and applies positional options left to right (GNU ld); the cc convention for the link line: inputs, -l, -Wl, and -Xlinker words in command-line order; '
                         'stage functions run_cc1(argc, argv, input, output) / assemble(input, output) and the temporary-name creator are cut points, libc string functions incl. strtok behave as ISO C specifies',
